@@ -16,7 +16,7 @@ def harness_files(tier, seed):
 META = dict(
     bounds="data d: the generic depth-1 and type-directed near-valid values of props/shared.py; per dataclass configuration keys chosen "
            "by the solver among the name forms, leaf values of 6 kinds",
-    configs="the 45 types of the shared table that have a serialised form + 7 dataclass configurations (tuple/struct output x input "
+    configs="the 58 types of the shared table that have a serialised form + 10 dataclass configurations (tuple/struct output x input "
             "layouts, class rename, in_rename/out_rename, aliases, field rename, in_names/out_name, keyword-only, exclude, nested) + thorough tier: 24 type expressions of nesting depth 3 drawn from the grammar with VERIF_SEED (props/gen_types.py), type-directed values with 3 symbolic leaf slots, under this property's oracle",
     stubs=[],
     outside=["configurations where the user set out_name outside in_names or out_format outside in_format (excluded by the statement)",
